@@ -147,6 +147,24 @@ def path(c, job):
             c.prove(f"C20.E {kind}-error-detected", s_not(s_eq(ref_crc(e), 0)), info=dict(kind=kind))
             if not c.symbolic:
                 c.prove(f"C20.E {kind}-error-detected", m.crc7(e) != 0, info=dict(kind=kind, through="real"))
+        elif kind == "fault":
+            # a call that raises part-way through a message (item out of range / not a number) leaves nothing behind
+            m._crc7_table = real_table
+            n = job["n"]
+            good = _bytes_of(c, "d", n) if False else None
+            bad_msgs = ([0x21, 0x79, 300], [1, 2, 3, None], [5, -300], [7, "x"])
+            ok = True
+            detail = None
+            for bad in bad_msgs:
+                try:
+                    m.crc7(bad)
+                except Exception:
+                    pass
+                for msg in ([], [0], [1, 2, 3], list(range(20))):
+                    if m.crc7(msg) != ref_crc(msg):
+                        ok, detail = False, (bad, msg)
+            c.reach("fault")
+            c.prove("C20.F call-after-a-failed-call", ok, info=dict(detail=repr(detail)))
         elif kind == "types":
             # bytes / bytearray / tuple inputs cannot carry symbolic content: every 1-byte and 2-byte message of each
             # type is run through the real function (exhaustive enumeration, said so) against the bit-serial reference
@@ -195,7 +213,7 @@ class C20(Spec):
     id = "C20"
     design_ref = "DESIGN.md §7 C20"
     real_capable = True
-    clauses = ["C20.T", "C20.L", "C20.D", "C20.R", "C20.X", "C20.E single", "C20.E double", "C20.E burst", "C20.B", "C20.H", "C20.Y"]
+    clauses = ["C20.T", "C20.L", "C20.D", "C20.R", "C20.X", "C20.E single", "C20.E double", "C20.E burst", "C20.B", "C20.H", "C20.Y", "C20.F"]
     stubs = ["robotpy_ext.misc.crc7._crc7_table replaced by a z3 term built from the real table contents (ITE chain) or an uninterpreted function (length induction)"]
     assumptions = ["message bytes are integers in [0,255] (bytes / bytearray / list of ints)"]
     outside = ["data items outside [0,255] (IndexError / other table rows are not part of the statement)",
@@ -210,7 +228,7 @@ class C20(Spec):
         j += [dict(kind="linear")]
         j += [dict(kind=k) for k in ("single", "double", "burst", "bijection")]
         j += [dict(kind="reuse", n=n) for n in ((1, 2) if tier == "quick" else (1, 2, 3))]
-        j += [dict(kind="types", light=(tier == "quick"))]
+        j += [dict(kind="types", light=(tier == "quick")), dict(kind="fault", n=2)]
         return j
 
     def bounds(self, tier):
@@ -219,7 +237,7 @@ class C20(Spec):
                     error_patterns="all single-bit, double-bit (<127 apart), burst (<=7) patterns in 16-byte messages")
 
     def reach_required(self, tier):
-        return ["table", "length-fold", "direct", "linear", "single", "double", "burst", "bijection", "reuse", "types"]
+        return ["table", "length-fold", "direct", "linear", "single", "double", "burst", "bijection", "reuse", "types", "fault"]
 
     def path_fn(self, c, job):
         path(c, job)
